@@ -179,4 +179,39 @@ def dohServerName (keeps restores : Bool) (other : Bytes → Bytes) (isV6 : Byte
     (urlHost : Bytes) : Bytes :=
   urlHostname (dohEndpointHost keeps restores other isV6 urlHost)
 
+/-! ## SOCKS5: what the proxy is asked to connect to
+
+A stream upstream (tcp, tls, https and the pipeline aliases) with `Opt.Socks5`
+hands its dial target to the proxy. With `asWritten` (fact
+`c18Socks5ConnectsToTarget`: the proxy branch of `newTcpDialer` comes before
+the ip / bootstrap decision tree and passes `JoinHostPort(host, port)`) the
+CONNECT request names the target as `parseDialAddr` gave it; otherwise `other`
+(unknown) decides - it may look at what a configured bootstrap server answers
+for the name (`resolved`). -/
+
+/-- (host, port) of the CONNECT request for dial target `t` -/
+def connectTarget (asWritten : Bool) (other : Bytes × UInt16 → Option Bytes → Bytes × UInt16)
+    (resolved : Option Bytes) (t : Bytes × UInt16) : Bytes × UInt16 :=
+  if asWritten then t else other t resolved
+
+/-! ## Upstreams created from the forward plugin's configuration
+
+`forward.NewForward` walks the configured entries; position `i` of its upstream
+list is what queries routed to entry `i` (by tag, or by the pick) are sent
+through. An entry is (URL host of `addr`, `dial_addr`, scheme default port).
+With `perEntry` (fact `c18FwdUpstreamPerEntry`) every entry gets an upstream
+created from its own `addr` and `dial_addr`; otherwise `other` (unknown) says
+which configuration the upstream of an entry was really created from, given
+the ones made so far. -/
+
+abbrev FwdCfg := Bytes × Bytes × UInt16
+
+/-- the configurations the upstreams of a forward were created from, in list order -/
+def fwdUpstreams (perEntry : Bool) (other : List FwdCfg → FwdCfg → FwdCfg) :
+    List FwdCfg → List FwdCfg → List FwdCfg
+  | _, [] => []
+  | made, c :: rest =>
+    let u := if perEntry then c else other made c
+    u :: fwdUpstreams perEntry other (u :: made) rest
+
 end Model.C18
